@@ -22,6 +22,7 @@ import (
 	"os"
 	"path/filepath"
 	"strings"
+	"sync"
 	"sync/atomic"
 	"time"
 
@@ -33,7 +34,6 @@ var Stdout io.Writer = os.Stdout
 
 func init() {
 	RegisterConverter(ParseTimeRotation)
-
 	RegisterTimeRotation("h", TimeRotation{Interval: time.Hour})
 	RegisterTimeRotation("30m", TimeRotation{Interval: time.Minute * 30})
 	RegisterTimeRotation("10m", TimeRotation{Interval: time.Minute * 10})
@@ -178,6 +178,9 @@ type RollingFileAppender struct {
 	Rotation TimeRotation `PluginAttribute:"rotation"`
 	MaxAge   int32        `PluginAttribute:"maxAge"`
 
+	// mu keeps a file from being closed (by a rotation or by Stop) while a
+	// write to it is in flight, and runs one rotation at a time.
+	mu       sync.RWMutex
 	file     atomic.Pointer[os.File]
 	oldFile  atomic.Pointer[os.File]
 	currTime atomic.Int64
@@ -204,6 +207,8 @@ func (c *RollingFileAppender) Append(e *Event) {
 // Write writes bytes to the current log file.
 func (c *RollingFileAppender) Write(b []byte) {
 	c.rotate()
+	c.mu.RLock()
+	defer c.mu.RUnlock()
 	if file := c.file.Load(); file != nil {
 		_, _ = file.Write(b)
 	}
@@ -211,6 +216,8 @@ func (c *RollingFileAppender) Write(b []byte) {
 
 // Stop flushes and closes both current and previous files.
 func (c *RollingFileAppender) Stop() {
+	c.mu.Lock()
+	defer c.mu.Unlock()
 	if file := c.oldFile.Swap(nil); file != nil {
 		_ = file.Sync()
 		_ = file.Close()
@@ -231,6 +238,14 @@ func (c *RollingFileAppender) rotate() {
 		return
 	}
 	if !c.currTime.CompareAndSwap(oldTime, nowTime) {
+		return
+	}
+
+	// Wait for writes in flight and for a rotation in progress; give up if a
+	// later interval has been rotated in the meantime.
+	c.mu.Lock()
+	defer c.mu.Unlock()
+	if nowTime < c.currTime.Load() {
 		return
 	}
 
